@@ -8,6 +8,7 @@ import (
 	"os"
 	"path/filepath"
 	"sort"
+	"strconv"
 	"strings"
 
 	astisub "github.com/asticode/go-astisub"
@@ -101,6 +102,23 @@ func testdataDocs() []doc {
 		out = append(out, doc{Name: filepath.Base(f), Fmt: ft, Data: b})
 	}
 	return out
+}
+
+// dumpDoc keeps every VERIF_DUMP_EVERY-th generated document as a file in VERIF_DUMP_DIR (source documents of
+// the conversion check come from the codec generators).
+func dumpDoc(ext string, n int, raw []byte) {
+	dir := os.Getenv("VERIF_DUMP_DIR")
+	if dir == "" {
+		return
+	}
+	every := 50
+	if v, err := strconv.Atoi(os.Getenv("VERIF_DUMP_EVERY")); err == nil && v > 0 {
+		every = v
+	}
+	if n%every != 0 {
+		return
+	}
+	ioutil.WriteFile(filepath.Join(dir, fmt.Sprintf("gen%d.%s", n, ext)), raw, 0o644)
 }
 
 func isText(f string) bool { return f == "srt" || f == "vtt" || f == "ssa" || f == "ttml" }
